@@ -324,7 +324,7 @@ type Events struct {
 func NewEvents() *Events { return &Events{Counts: map[string]int{}} }
 
 func (o *Events) OnRecord(arrow.Record, record_message.PayloadType) {}
-func (o *Events) OnNewField(recordName string, fieldPath string)     { o.Counts["new_field"]++ }
+func (o *Events) OnNewField(recordName string, fieldPath string)    { o.Counts["new_field"]++ }
 func (o *Events) OnDictionaryUpgrade(recordName string, fieldPath string, prev, nw arrow.DataType, card, total uint64) {
 	o.Counts["upgrade:"+prev.Name()+">"+nw.Name()]++
 	if card > o.MaxCard {
@@ -472,4 +472,14 @@ func RunStream(c *StreamCase, rc RunConfig) (*StreamResult, error) {
 		res.LeakBytes = pool.CurrentAlloc()
 	}
 	return res, nil
+}
+
+// newPair creates a producer with the options and a default consumer.
+func newPair(o Options) (*arrow_record.Producer, *arrow_record.Consumer, func()) {
+	p := arrow_record.NewProducerWithOptions(o.Build()...)
+	c := arrow_record.NewConsumer()
+	return p, c, func() {
+		_ = catch(func() { _ = p.Close() })
+		_ = catch(func() { _ = c.Close() })
+	}
 }
